@@ -231,10 +231,20 @@ def check_guard(P, R):
             cp = compare_parts(x)
             if cp and cp[1] is ast.In and isinstance(cp[0], ast.Constant) and isinstance(cp[0].value, str) and isinstance(cp[2], ast.Name):
                 rejected.add(cp[0].value)
+            if cp and cp[1] is ast.IsNot and is_none(cp[2]) and isinstance(cp[0], ast.Call):
+                x = cp[0]                  # `pattern.search(v) is not None`
+            if isinstance(x, ast.Call) and isinstance(x.func, ast.Name) and x.func.id in env and isinstance(env[x.func.id], ast.Attribute) \
+                    and env[x.func.id].attr in ('search', 'match', 'fullmatch', 'findall') and isinstance(env[x.func.id].value, ast.Call):
+                # a module-level bound method: `_search = re.compile(..).search`
+                x = ast.Call(func=ast.Attribute(value=env[x.func.id].value, attr=env[x.func.id].attr, ctx=ast.Load()), args=x.args, keywords=[])
             if isinstance(x, ast.Call) and call_attr(x) in ('search', 'match', 'fullmatch', 'findall'):
                 recv = x.func.value
                 pat = None
-                if isinstance(recv, ast.Name) and recv.id in env:
+                if isinstance(recv, ast.Call) and dotted(recv.func) == 're.compile' and recv.args:
+                    pat = recv.args[0]
+                if pat is not None:
+                    pass
+                elif isinstance(recv, ast.Name) and recv.id in env:
                     pat = RX.compiled_pattern_arg(env[recv.id])
                 elif dotted(recv) == 're' and x.args:
                     pat = x.args[0]
@@ -366,6 +376,13 @@ def check_emission(P, R):
             pair = c.args[0].elt            # out.extend(('Set-Cookie', ...) for morsel in ...)
         if pair is not None and len(pair.elts) == 2:
             x = transcode_of(T.expand(f, pair.elts[1], g.node_of_stmt(c)[0]))
+            if isinstance(x, ast.Name) and c.args and isinstance(c.args[0], (ast.GeneratorExp, ast.ListComp)):
+                # the text comes from a list prepared just before: `lines = [m.OutputString() for m in ..]; out.extend((.., l.encode..) for l in lines)`
+                for gen_ in c.args[0].generators:
+                    if isinstance(gen_.target, ast.Name) and gen_.target.id == x.id and not gen_.ifs:
+                        it_ = T.expand(f, gen_.iter, g.node_of_stmt(c)[0])
+                        if isinstance(it_, (ast.ListComp, ast.GeneratorExp)) and len(it_.generators) == 1 and not it_.generators[0].ifs:
+                            x = it_.elt
             ok = x is not None and isinstance(x, ast.Call) and call_attr(x) == 'OutputString'
         R.ob('C14.d', f, c, ok, text="out.append(('Set-Cookie', <morsel>.OutputString().encode('utf8').decode('latin1')))",
              detail='' if ok else 'cookie text is not transcoded utf8->latin1')
